@@ -19,13 +19,19 @@ class ToyModel(chi.MechanisticModel):
         self._outputs = list(self._all_outputs)
         self._names = ['p%d' % i for i in range(n_params)]
         self._sens = False
+        self._sens_idx = list(range(self._n_params))
         self.n_calls = 0
 
     def copy(self):
         return copy.deepcopy(self)
 
     def enable_sensitivities(self, enabled, parameter_names=None):
+        # documented contract: sensitivities w.r.t. `parameter_names` (default all)
         self._sens = bool(enabled)
+        if parameter_names is None:
+            self._sens_idx = list(range(self._n_params))
+        else:
+            self._sens_idx = [self._names.index(str(n)) for n in parameter_names]
 
     def has_sensitivities(self):
         return self._sens
@@ -67,4 +73,4 @@ class ToyModel(chi.MechanisticModel):
         if not self._sens:
             return out
         S = toy.sensitivities(parameters, times, len(self._all_outputs))
-        return out, S[:, idx, :]
+        return out, S[:, idx, :][:, :, self._sens_idx]
